@@ -233,6 +233,22 @@ func genC01(rng *rand.Rand, n int, thorough bool, emit func(string)) {
 // C20: sizes around the limits, endless lines, endless blank/comment runs
 func genC20(rng *rand.Rand, n int, thorough bool, emit func(string)) {
 	for i := 0; i < n; i++ {
+		if i%25 == 7 {
+			// one event of 4 to 20 KiB, far below the limit, handed over whole (every other one through a reader that
+			// knows its length), with or without the line break / blank line at its end, a BOM or blank lines before it
+			size := 4090 + rng.Intn(16000)
+			ev := pick(rng, "", "\n\n", "\xEF\xBB\xBF") + "data: " + strings.Repeat("z", size) + pick(rng, "", "\n", "\n\n")
+			emit(parseCaseLine(false, false, false, pick(rng, "-", "-", "r:65536", "r:100000"), "-", [][]byte{[]byte(ev)}))
+			continue
+		}
+		if i%25 == 19 {
+			// Connection.Buffer(nil, max) with a maximum that means "no limit": nothing is allocated for it up front
+			ev := "data: " + strings.Repeat("y", 5+rng.Intn(70000)) + "\n\n"
+			s := []byte("data: first\n\n" + ev)
+			cfg := "c:n:" + pick(rng, "1125899906842624", "4611686018427387903", "9223372036854775807")
+			emit(parseCaseLine(true, false, false, cfg, "-", segmentStream(rng, s)))
+			continue
+		}
 		conn := rng.Intn(2) == 0
 		endErr := rng.Intn(5) == 0
 		ewl := rng.Intn(8) == 0
